@@ -71,6 +71,8 @@ def _store_target(body, loopvars):
 def for_special(I, it, st, env):
     from .builtin_contracts import SDict, DictView
     from .interp import Raise, PathAbort, Unsupported, Env
+    if isinstance(it, SSet) and z3.simplify(it.term).get_id() == z3.simplify(sym.empty_set()).get_id():
+        return True                  # a loop over the empty set runs no iteration
     if isinstance(it, SSet):
         if not isinstance(st.target, ast.Name):
             raise Unsupported("loop over a set with a non-name target")
